@@ -179,6 +179,23 @@ pub fn data(kind: &str, n: usize, r: &mut StdRng) -> Vec<u8> {
                 v.push(b);
             }
         }
+    } else if let Some(d) = kind.strip_prefix("unitmatch") {
+        // `d` noise bytes, then groups of 8 bytes: 7 equal to the bytes `d` positions back and one that
+        // differs - one 7-byte match at distance `d` per group, so the number of matches on one distance
+        // symbol in a stream is (n - d) / 8 exactly (16-bit symbol counters: 65535 / 65536 / 65537)
+        let d: usize = (d.parse().unwrap_or(1000).max(16) / 8) * 8;
+        let base: Vec<u8> = (0..d).map(|_| r.gen()).collect();
+        v.extend_from_slice(&base[..d.min(n)]);
+        let per = d / 8;
+        let mut unit = 0usize;
+        while v.len() + 8 <= n {
+            let copy = unit / per + 1;
+            let i = unit % per;
+            v.extend_from_slice(&base[i * 8..i * 8 + 7]);
+            v.push(base[i * 8 + 7] ^ ((copy % 255) as u8 + 1));
+            unit += 1;
+        }
+        while v.len() < n { v.push(r.gen()); }
     } else if kind == "deep15" {
         // Per segment of 24..31 K: ~160 common byte values, a Fibonacci ladder of seven rarer
         // values and 8..24 values that occur once.  An unrestricted Huffman code would give the
